@@ -69,7 +69,21 @@ Ops == <<
   Op("pcap_read_all ok", FALSE, "pcap_read_all(pcap_open(\"$D/ok.pcap\"))"),
   Op("pcap_read_next after-end", FALSE, "pcap_read_next(PEND)"),
   Op("pcap_write ok", FALSE, "pcap_write(pcap_open(\"$D/po_$N.pcap\", \"w\"), BIGPKT)"),
-  Op("pcap_write big full-device", TRUE, "pcap_write(pcap_open(\"/dev/full\", \"w\"), BIGPKT)")
+  Op("pcap_write big full-device", TRUE, "pcap_write(pcap_open(\"/dev/full\", \"w\"), BIGPKT)"),
+  \* content that stops being pcap after a valid global header: a record header announcing more than the snap length
+  \* (badrec.pcap: the first record; damaged.pcap: the second one - PDMG is a handle on it whose good record has
+  \* been read).  The records in front of the damage are still delivered (PcapFile.tla); at the damage and after it
+  \* every read fails.
+  Op("pcap_read_next damaged-first-record", TRUE, "pcap_read_next(pcap_open(\"$D/badrec.pcap\"))"),
+  Op("pcap_read_all damaged-first-record", TRUE, "pcap_read_all(pcap_open(\"$D/badrec.pcap\"))"),
+  Op("pcap_read_next at-damage", TRUE, "pcap_read_next(PDMG)"),
+  Op("pcap_read_all at-damage", TRUE, "pcap_read_all(PDMG)"),
+  Op("pcap_read_all good-then-damage", FALSE, "pcap_read_all(pcap_open(\"$D/damaged.pcap\"))"),
+  Op("pcap_read_all n good-then-damage", FALSE, "pcap_read_all(pcap_open(\"$D/damaged.pcap\"), 1)"),
+  \* a pcap stream on the standard output (a full device): a record bigger than the stream's buffer meets ENOSPC
+  \* (PWOUT opens the stream and writes the record; a stream that cannot be opened any more is the failure then)
+  Op("pcap_write stdout-stream full-device", TRUE, "PWOUT(MIDPKT)"),
+  Op("pcap_write big stdout-stream full-device", TRUE, "PWOUT(BIGPKT)")
 >>
 NOps == Len(Ops)
 
